@@ -275,9 +275,11 @@ Section Handle.
           bind (if v =? 4 then post (ECap CSixel) s else ret s) (da1_loop t))
     end.
 
-  Definition decrpm (ps : list (list Z)) (c : capev) (s : vxstate) : outcome :=
+  (* [perm]: a report "permanently set" (3) counts too (mode 2027 only) *)
+  Definition decrpm_gen (perm : bool) (ps : list (list Z)) (c : capev) (s : vxstate) : outcome :=
     if zlen ps <? 2 then ret s
-    else need (par ps 1) (fun v => if (v =? 1) || (v =? 2) then post (ECap c) s else ret s).
+    else need (par ps 1) (fun v => if (v =? 1) || (v =? 2) || (perm && (v =? 3)) then post (ECap c) s else ret s).
+  Definition decrpm := decrpm_gen false.
 
   Definition handle_csi (inter : list Z) (ps : list (list Z)) (fin : Z) (s : vxstate) : outcome :=
     let it := ICsi inter ps fin in
@@ -308,7 +310,7 @@ Section Handle.
       if zlen ps <? 1 then ret s
       else need (par ps 0) (fun a =>
              if a =? 2026 then decrpm ps CSync s
-             else if a =? 2027 then decrpm ps CUnicode s
+             else if a =? 2027 then decrpm_gen true ps CUnicode s
              else if a =? 2031 then decrpm ps CTheme s
              else ret s)
     else if fin =? 117 (* u *) then
